@@ -280,8 +280,9 @@ def main(argv=None):
                             undecided=undecided, undecided_conjuncts=list(reg.undecided),
                             samples=samples, engine_notes=trace),
               assumptions=list(reg.assumptions) + trace, wall_s=round(wall, 2), violations=nviol)
-    os.makedirs(os.path.join(HERE, 'evidence'), exist_ok=True)
-    json.dump(ev, open(os.path.join(HERE, 'evidence', '%s.json' % prop), 'w'), indent=1, default=str)
+    evdir = os.environ.get('KVC_EVIDENCE_DIR') or os.path.join(HERE, 'evidence')     # development runs against scratch copies write elsewhere
+    os.makedirs(evdir, exist_ok=True)
+    json.dump(ev, open(os.path.join(evdir, '%s.json' % prop), 'w'), indent=1, default=str)
     for l in out_lines:
         print(l)
     print('%s tier=%s: %d obligations, %d proved, %d canaries (%d refuted), %d known findings, %d violations, %d undecided%s, %.1fs -> exit %d'
